@@ -6,6 +6,43 @@ ALL = ["C%02d" % i for i in range(1, 21)]
 
 # id -> (technique, level text, level_note, design_ref)
 CLAIMS = {
+ "C01": ("Lean 4 no-panic / termination proofs for the integer-and-index hot spots (checked-arithmetic model) + in-process correspondence; fuzzing only as labelled support",
+         "Proof (partial by nature): Model/Checked.lean models usize/i64/u32 arithmetic as checked operations returning `Except Panic _` and mirrors, line for "
+         "line, the hot spots where the dev-profile binary can panic: ${v:o:l} clamping and polymorphic_subslice, array index normalisation, brace number "
+         "and character sequences, `history N`, break/continue level conversion, wrapping power, every arithmetic operator. 20 theorems: "
+         "substring_no_panic / subarray_no_panic (every i64 offset and length), index_norm_no_panic, loop_levels_no_panic, "
+         "arith_binop_declared_errors_only (over C07's operators), exact panic characterisations with proved counter-examples for the brace and "
+         "history defects (recorded findings), termination of every model by Lean's checker (the one non-terminating Rust loop is an explicit `hang` "
+         "outcome with its cex). Tie: ~22 700 boundary-grid cases per run through brush's real entry points inside catch_unwind vs the model "
+         "(value-or-error-kind; a panic observed or predicted is a failure). Everything else — tokenizer, PEG parsers, interpreter, highlighter, "
+         "completion, prompt — is explored only: all suite scripts and all short strings over the structural alphabet through every parser, "
+         "nesting to depth 64, mutations, generated scripts in the binary under timeout and memory limits. That part is fuzzing and is labelled so.",
+         "Trusted: Lean kernel + standard axioms. NOT proved: panic-freedom of the tokenizer, the generated parsers and the async interpreter as wholes "
+         "(1 700-line state machine, PEG-generated code, tokio); 14 open panic/hang findings are listed in known_findings.json, keyed by file + message "
+         "+ input feature.",
+         "DESIGN.md §6 C01, §9"),
+ "C04": ("Lean 4 proofs on the piece/field algebra of word expansion (all values, all IFS, all glob options, all directory listings) + in-process and binary correspondence",
+         "Proof: Model/Expand.lean mirrors expansion.rs: splittable/unsplittable pieces, fields, double-quote processing, $@/$*/a[@]/a[*], coalescing, the "
+         "split_fields loop for any IFS, conversion to patterns (unsplit ↦ literal) and pathname expansion over an abstract directory listing. All at full "
+         "strength, no guard: literal_never_globs, quoted_never_splits, dq_concat_exact and corollaries (dq_param_exact, dq_cmdsubst_exact/_trims, "
+         "empty_quotes_kept), dq_at_exact / dq_array_at_exact (incl. zero arguments, empty strings kept), assign_copies_exact, "
+         "unquoted_is_split_then_glob_only (against an independent string-level definition of IFS runs). Tie: brush's real expander in-process vs the model "
+         "on 26 word templates x values (exhaustive to length 2/3 over the adversarial alphabet, random to 40) x 4 IFS x 8 option sets x a 40-entry scratch "
+         "directory; the intrinsic predicate on the binary in 14 contexts (argument, assignment, array element, case word, [[ ]], here-string, "
+         "redirection target, …) with bash as sanity oracle: ~400 000 cases per quick run.",
+         "Trusted: Lean kernel + standard axioms; command-substitution output and arithmetic values enter the model as data; the pattern matcher is the "
+         "C08 model (bracket expressions it does not cover are flagged unmodelled and compared brush-vs-bash only).",
+         "DESIGN.md §6 C04"),
+ "C05": ("Lean 4 proofs relating brush's word-expansion model to a POSIX/bash reference (brace expansion, field splitting, $@/$* structure) + three-way correspondence",
+         "Proof: on the C04 model plus Spec/WordExp.lean (brace expansion yields words expanded separately; POSIX field splitting; sorted pathname results). "
+         "split_eq_posix_ws, split_empty_ifs, coalesce_assoc, at_star_field_structure, word_expansion_refines_spec_partial (guard: IFS non-empty, and with "
+         "braces IFS contains a space and no generated word is empty) with proved counter-examples for each guard (brace alternatives joined with a space, "
+         "\"$*\" under empty IFS, non-whitespace IFS) recorded as findings. Tie: words from a piece grammar (all pairs of 23 pieces + 12 000 random) over "
+         "environments with empty / blank-padded / multi-field / glob-like values, positional lists 0..3, five IFS settings, fixed directory trees: brush "
+         "binary vs bash, in-process brush vs model, Lean spec vs bash.",
+         "Trusted: Lean kernel + standard axioms; bash as oracle (the spec disagrees with bash on ~0.1 % of cases, all inside two recorded clauses). Tilde "
+         "expansion enters as data.",
+         "DESIGN.md §6 C05"),
  "C10": ("Lean 4 refinement proof (brush's persistent table + per-command overlay vs a flat POSIX descriptor table) and here-document scanner proof + three-way correspondence",
          "Proof: Model/Fd.lean mirrors openfiles.rs and interp.rs setup_redirect (every redirection form, noclobber, exec); Spec/FdFlat.lean is open/dup2/close "
          "applied left to right. overlay_refines_flat (partial: guard excludes the move form and &>word under noclobber, both refuted by cex and recorded), "
